@@ -229,9 +229,9 @@ DIMS = [
     # zig-zag path (travelled length differs from the straight-line distance)
     ("motion_filter", [None, (0.5, 30.0), (100.0, 40.0), (2.5, 170.0)]),
     ("merge", [False, True]),
-    ("t_offset", [0.0, 0.125]),
+    ("t_offset", [0.0, 0.125, -0.125]),
     ("align", ALIGN),
-    ("n_to_align", [-1, 4]),
+    ("n_to_align", [-1, 4, 3]),
     ("transform", TRANSF),
     ("project", [None, "xy", "xz", "yz"]),
     ("export", ["tum", "kitti"]),
@@ -544,8 +544,8 @@ def points(ctx):
         # + the full product of the processing options (no transformation)
         proc = [("nfiles", [1, 2]), ("downsample", [None, 5]),
                 ("motion_filter", DIMS[2][1]), ("merge", [False, True]),
-                ("t_offset", [0.0, 0.125]), ("align", ALIGN),
-                ("n_to_align", [-1, 4]), ("project", [None, "xz"]),
+                ("t_offset", [0.0, 0.125, -0.125]), ("align", ALIGN),
+                ("n_to_align", [-1, 4, 3]), ("project", [None, "xz"]),
                 ("t_max_diff", [0.01, 0.3]), ("export", ["tum", "kitti"])]
         for q in lattice.product(proc):
             pts.append(dict(q, transform=TRANSF[0]))
